@@ -149,7 +149,7 @@ func genPrecCase(r *vrun.Run, idx int) Case {
 		c.API = "LoadFromEnvironment"
 		c.Format = formats[rng.IntN(len(formats))]
 	}
-	c.Style = rng.IntN(3)
+	c.Style = rng.IntN(4)
 	if rng.IntN(2) == 1 {
 		seen := map[string]bool{}
 		for _, l := range td.Leaves {
@@ -374,7 +374,7 @@ func judgePrec(r *vrun.Run, c *Case, res *Result) {
 			blank = append(blank, l)
 		}
 	}
-	styleName := []string{"ozzo-field", "ozzo-mapstructure-tag", "plain-error"}[c.Style]
+	styleName := []string{"ozzo-field", "ozzo-mapstructure-tag", "plain-error", "commonerrors-error-of-another-category"}[c.Style]
 	if !lo.ErrNil {
 		if len(blank) == 0 {
 			r.Violation(vrun.Sig{"clause": "load", "ep": c.API, "effect": "error-although-structure-valid", "invalid_kind": fmt.Sprint(lo.ErrInvalid)},
